@@ -2,6 +2,7 @@ package symex
 
 import (
 	"fmt"
+	"os"
 	"strings"
 
 	"fgsym/smt"
@@ -144,7 +145,7 @@ func registerZzv(e *Engine) {
 		v := c.E.nondet(st, name, smt.BV64)
 		st.Assume(smt.BVCmp(smt.OpBVUle, v, smt.IntC(int64(k))))
 		for i := 1; i <= k; i++ {
-			c.E.strCodes[fmt.Sprintf("zzid%d", i)] = i
+			c.E.strCodes[IdName(i)] = i
 		}
 		return one(st, Str{Code: v})
 	})
@@ -152,8 +153,8 @@ func registerZzv(e *Engine) {
 		t := args[0].(*smt.Term)
 		if t.IsConst() {
 			i := int(t.SInt())
-			c.E.strCodes[fmt.Sprintf("zzid%d", i)] = i
-			return one(st, Str{S: fmt.Sprintf("zzid%d", i)})
+			c.E.strCodes[IdName(i)] = i
+			return one(st, Str{S: IdName(i)})
 		}
 		return one(st, Str{Code: t})
 	})
@@ -521,9 +522,30 @@ func registerFiles(e *Engine) {
 		en.abort("SafeCmdExecution(%s, ...) is not one of the modelled command forms", exe)
 		return nil
 	})
+	// os.Lstat: a symbolic link registered with zzv.SymlinkPut is reported as such (created by the
+	// harness as root: root:root, mode L0777); anything else as os.Stat without following links
+	e.reg("os.Lstat", func(c *CallCtx, st *State, args []Value) []Outcome {
+		en := c.E
+		p := en.pathArg(args[0], "os.Lstat")
+		if en.resolveLink(st, p) != p {
+			stT := en.typeOf("syscall", "Stat_t")
+			sv := Zero(stT).(*StructV)
+			nf := append([]Value(nil), sv.F...)
+			nf[fieldIndex(stT, "Uid")] = smt.BVC(0, 32)
+			nf[fieldIndex(stT, "Gid")] = smt.BVC(0, 32)
+			sp := en.alloc(st, &StructV{F: nf})
+			fi := &StructV{F: []Value{smt.BVC(uint64(os.ModeSymlink)|0o777, 32), sp}}
+			return one(st, Tuple{Iface{T: en.typeOf(ZzvPath, "FileInfo"), V: fi}, nilErr})
+		}
+		if h, ok := en.statOutcomes(st, p); ok {
+			return h
+		}
+		ne := st.Load(en.globalPtr(st, en.Pkgs["io/fs"].Var("ErrNotExist")))
+		return one(st, Tuple{Iface{}, ne})
+	})
 	e.reg("os.Stat", func(c *CallCtx, st *State, args []Value) []Outcome {
 		en := c.E
-		p := en.pathArg(args[0], "os.Stat")
+		p := en.resolveLink(st, en.pathArg(args[0], "os.Stat"))
 		if h, ok := en.statOutcomes(st, p); ok {
 			return h
 		}
@@ -540,4 +562,13 @@ func registerFiles(e *Engine) {
 		}
 		return outs
 	})
+}
+
+// IdName is the i-th member of the identifier family behind zzv.Id: zzid1, zzid2, zzid3 and, as
+// the fourth, ZZID1 - the first one in another letter case (identifiers are compared exactly).
+func IdName(i int) string {
+	if i == 4 {
+		return "ZZID1"
+	}
+	return fmt.Sprintf("zzid%d", i)
 }
